@@ -120,9 +120,14 @@ Compu = Union[Identical, Linear, TextTable, OtherCompu]
 # ------------------------------------------------------------------ DOPs
 @dataclass
 class SimpleDop:
+    """`precision` / `radix`: the optional PRECISION child / DISPLAY-RADIX attribute of PHYSICAL-TYPE (display hints: digits shown
+    behind the decimal point of a float, radix an A_UINT32 is shown in). They do not take part in any conversion, so the model
+    does not receive them (`sexp.dop`); only the XML document carries them."""
     dct: Dct
     phys: str
     compu: Compu = field(default_factory=Identical)
+    precision: Optional[int] = None
+    radix: Optional[str] = None         # HEX | DEC | BIN | OCT
     tag = "simple"
 
 
